@@ -8,7 +8,7 @@ REPLAY = os.path.join(VERIF, "replay")
 KNOWN = os.path.join(VERIF, "known_findings.json")
 
 
-MAX_STATS = {"depth_bound", "preemption_bound"}
+MAX_STATS = {"depth_bound", "preemption_bound", "max_points"}
 
 
 class Result:
